@@ -99,6 +99,9 @@ type ogServer struct {
 	qconns []quic.Connection
 	seen   map[string]bool
 	acc    atomic.Int32
+
+	streamFn func(net.Conn)       // round 3: serves an accepted (and TLS-wrapped) stream instead of the plain echo
+	udpFn    func(net.PacketConn) // round 3: serves the UDP socket instead of the plain echo
 }
 
 func ogNewServer(tr string) (*ogServer, error) {
@@ -109,10 +112,25 @@ func ogNewServer(tr string) (*ogServer, error) {
 		return nil, err
 	}
 	s.cert = cert
+	// The port is chosen by a PLAIN bind (no SO_REUSE* at bind time), so it is in use by nobody else and an automatic
+	// port selection of any other socket (ours or another process's) can never land on it; the sharing options are
+	// set on the holder only afterwards, for the server sockets that bind the port explicitly.
 	if tr == "udp" || tr == "doq" {
-		d := net.Dialer{Control: ogReuseCtl, LocalAddr: &net.UDPAddr{IP: net.IPv4(127, 0, 0, 1)}}
-		h, err := d.Dial("udp", "127.0.0.1:1")
+		h, err := net.DialUDP("udp4", &net.UDPAddr{IP: net.IPv4(127, 0, 0, 1)}, &net.UDPAddr{IP: net.IPv4(127, 0, 0, 1), Port: 1})
 		if err != nil {
+			return nil, err
+		}
+		rc, err := h.SyscallConn()
+		if err == nil {
+			var e error
+			if err = rc.Control(func(fd uintptr) {
+				e = syscall.SetsockoptInt(int(fd), syscall.SOL_SOCKET, syscall.SO_REUSEADDR, 1)
+			}); err == nil {
+				err = e
+			}
+		}
+		if err != nil {
+			h.Close()
 			return nil, err
 		}
 		s.holdUC = h
@@ -122,9 +140,13 @@ func ogNewServer(tr string) (*ogServer, error) {
 		if err != nil {
 			return nil, err
 		}
-		syscall.SetsockoptInt(fd, syscall.SOL_SOCKET, syscall.SO_REUSEADDR, 1)
-		syscall.SetsockoptInt(fd, syscall.SOL_SOCKET, 15, 1)
 		if err := syscall.Bind(fd, &syscall.SockaddrInet4{Addr: [4]byte{127, 0, 0, 1}}); err != nil {
+			syscall.Close(fd)
+			return nil, err
+		}
+		// SO_REUSEPORT only (not SO_REUSEADDR): a listener of another process, which has SO_REUSEADDR by default, still
+		// conflicts with the holder
+		if err := syscall.SetsockoptInt(fd, syscall.SOL_SOCKET, 15 /* SO_REUSEPORT */, 1); err != nil {
 			syscall.Close(fd)
 			return nil, err
 		}
@@ -168,7 +190,11 @@ func (s *ogServer) up(mode string) error {
 			return err
 		}
 		s.pc = pc
-		go s.serveUDP(pc)
+		if s.udpFn != nil {
+			go s.udpFn(pc)
+		} else {
+			go s.serveUDP(pc)
+		}
 	case "doq":
 		pc, err := lc.ListenPacket(context.Background(), "udp4", s.addr)
 		if err != nil {
@@ -268,6 +294,10 @@ func (s *ogServer) serveStream(raw net.Conn) {
 		c = tc
 	}
 	s.acc.Add(1)
+	if s.streamFn != nil {
+		s.streamFn(c)
+		return
+	}
 	ogEchoFrames(c)
 }
 
